@@ -10,18 +10,10 @@ from sa.poly import RF
 from sa.selftest import Edit, Variant
 from sa.sym import ClassRef, Cond, Ext, Interp, PyCallable, Rec, SymStr, Undecided, Unknown, closure_of, explore, method_of, to_rf
 
-EXPLANATION = (
-    "Composited colours are not decided. Decided: (handler kinds, derived by interpreting each handler body on the four presence "
-    "combinations of parent/child with symbolic values - not from function names) every inherited SVG property is copied child-wins, opacity "
-    "multiplies, display:none dominates, transform composes child-first, clip-path accumulates, overflow copies unless visible, id/data-name/"
-    "enable-background do not inherit; defaults equal the SVG initial values; (group retention) removable iff no attributes, at most one "
-    "non-redundant child, or clamped opacity in {0,1}; a dissolved group's opacity reaches each non-redundant child exactly once (call-site "
-    "agreement between push_opacity and explicit _inherit_attrib); (style precedence) declarations overwrite attributes unconditionally, the "
-    "style attribute is consumed, all elements with style plus the root and cached shapes are covered; (normalize_opacity, interpreted on the "
-    "four none/paint combinations) the opacity of the absent paint is folded and reset; (context) own attributes win over inherited ones in "
-    "from_element, to_element omits exactly values equal to the inherited/default one, the traversal feeds own attributes then the parent context."
-)
-ASSUMPTIONS = ["the explicit `inherit` keyword and currentColor are out of scope (as in the property)"]
+from sa.texts import T as _T
+
+EXPLANATION = _T["C05"]["explanation"] + " Not decided: " + _T["C05"]["not_decided"] + "."
+ASSUMPTIONS = _T["C05"]["assumptions"]
 P = "C05"
 S = RF.sym
 
